@@ -17,6 +17,16 @@ TEXT = {
         "design_ref": "DESIGN.md §5 C02, §4.2", "note": TX_NOTE,
         "technique": "Lean 4 proof (data refinement to an abstract queue, loop invariant on capacity) on a hand-written model; model-vs-implementation correspondence run",
     },
+    "C03": {
+        "level": "Machine-checked theorems over every serde data-model value (mutual structural induction) and every buffer length: the Rust-shaped serializer model (compound states, Some(0) early close, "
+                 "run-splitting escape loop, key serializer) yields exactly the reference compact rendering when it fits, the key error when the bytes before it fit, BufferTooSmall otherwise; the 256-entry "
+                 "ESCAPE table extracted from the current source is checked entry by entry; no emitted byte is below 0x20 (no NUL inside a frame); non-string/int keys are refused. "
+                 "Reference-vs-serde_json and model-vs-code are checked three-way on ~32k (quick) / ~2M (thorough) values incl. every Unicode scalar.",
+        "design_ref": "DESIGN.md §5 C03, §4.4",
+        "note": "Trusted: Lean kernel; extractor for ESCAPE/HEX_DIGITS; the recording serializer that ships Rust values as data-model events; serde_json as the meaning of `compact JSON`; itoa/ryu digit texts opaque; "
+                "UTF-8 validity is oracle-checked per explored value, not a theorem.",
+        "technique": "Lean 4 proof (capacity-respecting action algebra, mutual structural induction; decide over the extracted 256-entry table); three-way differential run zlink / serde_json / model",
+    },
     "C17": {
         "level": "Machine-checked theorems parametric in growth step and limit: buffer capacity never exceeds the limit (inbound: every event sequence; outbound: every operation); a lone frame is "
                  "delivered iff its wire size is below the limit, for every growth step and read-size schedule, otherwise overflow with exactly `max` bytes buffered; an outbound message is accepted iff "
